@@ -30,6 +30,8 @@ def mode_inputs(p):
         if seed % 2:
             ubm.variance_thresholds = 1e-6
             ubm.variances = np.array([[1e-3, 2e-3], [0.5, 0.7]])
+        if seed % 3 == 2:
+            ubm.variance_thresholds = np.full((C, D), 1e-4) if seed % 2 else np.full((D,), 1e-4)      # array-valued floors
         u0 = snap(ubm)
         x5 = rs.normal(size=(5, D)) + 3
         ll0 = ubm.log_likelihood(x5).copy()
@@ -40,9 +42,13 @@ def mode_inputs(p):
             return {"what": "GMM MAP fit modified the training array"}
         if not same_gmm(ubm, u0) or not np.array_equal(ubm.log_likelihood(x5), ll0):
             return {"what": "GMM MAP fit modified the prior machine"}
-        for f in ("means", "variances", "weights"):
-            if np.shares_memory(getattr(m, f), getattr(ubm, f)) or np.shares_memory(getattr(m, f), X):
-                return {"what": "MAP-adapted %s share memory with the prior / the data" % f}
+        for f in ("means", "variances", "weights", "variance_thresholds"):
+            if np.shares_memory(np.asarray(getattr(m, f)), np.asarray(getattr(ubm, f))) or np.shares_memory(np.asarray(getattr(m, f)), X):
+                return {"input": {"prior_floor_shape": list(np.shape(ubm.variance_thresholds))}, "what": "MAP-adapted %s share memory with the prior / the data" % f}
+        m2 = GMMMachine(C, trainer="map", ubm=ubm)
+        for f in ("means", "variances", "weights", "variance_thresholds"):
+            if np.ndim(getattr(ubm, f)) and np.shares_memory(np.asarray(getattr(m2, f)), np.asarray(getattr(ubm, f))):
+                return {"input": {"prior_floor_shape": list(np.shape(ubm.variance_thresholds))}, "what": "a machine constructed from a prior shares its %s array with the prior" % f}
         # statistics, scoring
         st = [ubm.acc_stats(X[:10]), ubm.acc_stats(X[10:])]
         st0 = snap(st)
@@ -97,6 +103,31 @@ def mode_determinism(p):
         b = train()
         if not all(np.array_equal(x, y) for x, y in zip(a, b)):
             return {"what": "k-means / GMM training depends on the state of NumPy's global generator"}
+        # ISV / JFA: the random initialisation of U, V, D is a function of random_state only (0 included)
+        from bob.learn.em import ISVMachine, JFAMachine, GMMStats
+        ubm = GMMMachine(2)
+        ubm.means, ubm.variances, ubm.weights = rs.normal(size=(2, 3)), rs.uniform(0.5, 2, size=(2, 3)), np.array([0.4, 0.6])
+        stats, labels = [], []
+        for j in range(6):
+            s_ = GMMStats(2, 3)
+            s_.n = rs.uniform(1, 5, size=2)
+            s_.sum_px = s_.n[:, None] * rs.normal(size=(2, 3))
+            s_.sum_pxx = s_.n[:, None] * rs.uniform(1, 2, size=(2, 3))
+            s_.t = int(s_.n.sum()) + 1
+            stats.append(s_)
+            labels.append(j % 3)
+        for rstate in (0, 7):
+            def fa():
+                i_ = ISVMachine(r_U=2, em_iterations=1, ubm=ubm, random_state=rstate).fit(stats, labels)
+                j_ = JFAMachine(r_U=2, r_V=2, em_iterations=1, ubm=ubm, random_state=rstate).fit(stats, labels)
+                return [np.array(i_.U), np.array(j_.U), np.array(j_.V), np.array(j_.D)]
+            np.random.seed(1)
+            a = fa()
+            np.random.seed(99)
+            np.random.rand(3)
+            b = fa()
+            if not all(np.array_equal(x, y) for x, y in zip(a, b)):
+                return {"input": {"random_state": rstate}, "what": "ISV / JFA training with a fixed random_state depends on the state of NumPy's global generator"}
         # WCCN: sample order and label names (ids that collide in a set's hash table included)
         Z = rs.normal(size=(12, 3))
         for labels in (np.repeat([0, 1, 2], 4), np.repeat([1, 9, 17], 4), np.repeat([3, 11, 5], 4), np.repeat([-1, 0, 1], 4)):
